@@ -104,6 +104,13 @@ static void on_unit(bool isA, bool raw, const char *text, size_t len, bool lead_
 /* --------------------------------------------------------------- handlers */
 cat_status eng_trigger(int ci, cat_cmd_type t)
 {
+        if (PHASE == 0 && pr_pct(&H, 40)) {      /* an application asks first whether there is room (outside cat_service only: the query takes the lock) */
+                cat_status f = cat_is_unsolicited_buffer_full(W.at);
+                CNT("full_queries_before_a_trigger");
+                if ((f == CAT_STATUS_OK || f == CAT_STATUS_ERROR_BUFFER_FULL) && (f == CAT_STATUS_ERROR_BUFFER_FULL) != (EV_WAITING >= QCAP))
+                        viol("C13", "full-query-wrong", "cat_is_unsolicited_buffer_full returned %d with %ld of %d events waiting", (int)f, EV_WAITING, QCAP);
+                if (f == CAT_STATUS_ERROR_BUFFER_FULL) CNT("full_queries_answered_full");
+        }
         cat_status s = cat_trigger_unsolicited_event(W.at, W.cmd[ci], t);
         ev_note("trigger cmd#%d %s -> %d", ci, t == CAT_CMD_TYPE_READ ? "READ" : "TEST", (int)s);
         bool room = EV_WAITING < QCAP;
@@ -141,9 +148,11 @@ static cat_return_state draw_code(struct hcall *h)
         if (k == 1) return CAT_RETURN_STATE_HOLD_EXIT_ERROR;
         return (cat_return_state)(k == 2 ? 20 + (int)pr_n(&H, 5) : -2 - (int)pr_n(&H, 5));
 }
+void (*ENG_ON_HANDLER)(struct hcall *h);
 static cat_return_state eng_policy(struct hcall *h)
 {
         bool isA = h->fsm == FSM_A;
+        if (ENG_ON_HANDLER) ENG_ON_HANDLER(h);
         bool rt = h->kind == K_READ || h->kind == K_TEST;
         if (rt) {
                 volatile uint8_t sink = 0;
@@ -245,7 +254,7 @@ void eng_after_service(cat_status s)
                 if (PU.st != 0) CNT("busy_samples_inside_event_unit");
         }
         {       /* coverage accounting only: how often both flush engines wanted the line at the same time */
-                int as = (int)W.at->state, us = (int)W.at->unsolicited_fsm.state;
+                int as = OBJ_STATE(), us = OBJ_USTATE();
                 bool aw = as == CAT_STATE_FLUSH_IO_WRITE_WAIT, af = as == CAT_STATE_FLUSH_IO_WRITE;
                 bool uw = us == CAT_UNSOLICITED_STATE_FLUSH_IO_WRITE_WAIT, uf = us == CAT_UNSOLICITED_STATE_FLUSH_IO_WRITE;
                 if (aw && uf) CNT("contended_steps_event_holds_line");
@@ -277,8 +286,8 @@ void eng_after_service(cat_status s)
                 if (s2 != CAT_STATUS_OK) viol("C15", "probe-not-ok", "cat_service returned OK, the immediately repeated call returned %d", (int)s2);
                 if (OUTN != outn || N_WRITE_OK + N_WRITE_NO != wr) viol("C15", "probe-emitted", "the repeated call after OK offered output");
                 if (hc2 != hc) viol("C15", "probe-invoked-callback", "the repeated call after OK invoked a handler or variable callback");
-                before.current_char = W.at->current_char;
-                if (RAW_COMPARES && memcmp(&before, W.at, sizeof before) != 0) viol("C15", "probe-changed-state", "the repeated call after OK modified the parser object");
+                OBJ_EXCUSE_CURRENT_CHAR(before);
+                if (RAW_COMPARES && OBJ_FIELDS && memcmp(&before, W.at, sizeof before) != 0) viol("C15", "probe-changed-state", "the repeated call after OK modified the parser object");
         }
         canary_check("after service");
 }
@@ -313,7 +322,7 @@ static char *mkname(void)
 void eng_gen_table(void)
 {
         w_begin();
-        size_t ng = chance(90) ? 1 + rn(3) : 1 + rn(6);
+        size_t ng = chance(88) ? 1 + rn(3) : chance(60) ? 1 + rn(6) : 7 + rn(7);       /* now and then nine and more groups */
         size_t ncmd = ng + (chance(70) ? rn(8) : rn(EP.max_cmds - (unsigned)ng + 1));
         bool big = chance(4);
         if (big) { ncmd = 24 + 4 * rn(5) - (chance(30) ? rn(4) : 0); if (ncmd > MAXCMD - 8) ncmd = MAXCMD - 8; if (ng > ncmd) ng = 1; }      /* 21 .. 40 commands, mostly a multiple of four */
@@ -393,7 +402,14 @@ void eng_gen_line(void)      /* appends exactly one line, LF included */
         unsigned r = rn(100);
         if (chance(EP.p_nul) && chance(30)) in_putc(0);      /* a NUL in front of the line (between two lines) */
         size_t line_start = INLEN;
-        if (r < EP.p_garbage_line) { unsigned n = chance(92) ? rn(12) : 240 + rn(chance(50) ? 40 : 3000);      /* also lines longer than 255 / several thousand bytes: length counters must not wrap while draining */
+        if (chance(3)) {      /* byte sequences with a meaning elsewhere: a line made only of them, or one in front of / behind a request */
+                unsigned n = 1 + rn(3), form = rn(4);
+                if (form == 2) { in_puts("AT"); const struct cat_command *c = W.cmd[rn(W.ncmds)]; in_puts(c->name); }
+                for (unsigned q = 0; q < n; q++) { in_puts(LORE[rn(N_LORE)]); if (chance(15)) in_putc('\r'); }
+                if (form == 3) { in_puts("AT"); const struct cat_command *c = W.cmd[rn(W.ncmds)]; in_puts(c->name); }
+                CNT("lines_with_terminal_lore_sequences");
+        }
+        else if (r < EP.p_garbage_line) { unsigned n = chance(92) ? rn(12) : 240 + rn(chance(50) ? 40 : 3000);      /* also lines longer than 255 / several thousand bytes: length counters must not wrap while draining */
                 for (unsigned q = 0; q < n; q++) { uint8_t ch = (uint8_t)rnd(); if (ch == '\n') ch = 'y'; in_putc(ch); } }
         else if (r < EP.p_garbage_line + 4) { unsigned n = rn(3); for (unsigned q = 0; q < n; q++) in_putc('\r'); }
         else {
